@@ -208,7 +208,8 @@ def _hendrix(ctx, col):
     ES = I.attrs[backing_attr(ctx, cls, "random_event_space")]
     okx = "ravel_multi_index" in show_norm(idx) and show_norm(Ma) in show_norm(ES) and show_norm(Mb) in show_norm(ES)
     rav = [t for t in subterms(idx) if t[0] == "app" and t[1] == "np.ravel_multi_index"]
-    okx = len(rav) == 1 and rav[0][2][1] == T_add(T_sub(("app", "array", (("tuple", (Ma, Mb)),)), ("app", "array", (("tuple", (ZERO, ZERO)),))), ONE)
+    from .solverterms import elementwise_same
+    okx = len(rav) == 1 and elementwise_same(I, rav[0][2][1], T_add(T_sub(("app", "array", (("tuple", (Ma, Mb)),)), ("app", "array", (("tuple", (ZERO, ZERO)),))), ONE))
     col.add("R16.6", "HendrixTwoProductPerishable._construct_random_event_space", owner.module.relpath,
             ctx.ct.require(cls, "_construct_random_event_space")[1].lineno, okx,
             "events indexed over the box [0, max_stock_a] x [0, max_stock_b]" if okx else f"event index is {show_norm(idx)[:200]}",
@@ -225,6 +226,31 @@ def _hendrix(ctx, col):
         bino = ("app", "scipy.stats.binom.pmf", (k, rng, sub))
         return I3.dot(pois, bino)
 
+    def _canon_pmf(t):
+        """pmf(arange(a, b) + c) == pmf(arange(a + c, b + c));  pmf(arange(a, b))[k:] == pmf(arange(a + k, b)): a table
+        evaluated once and sliced is the table evaluated on the slice"""
+        if not isinstance(t, tuple) or not t:
+            return t
+        t = tuple(_canon_pmf(x) if isinstance(x, tuple) else x for x in t)
+        if t[0] == "poly":
+            # arange(a, b) + (scalars): shift the range
+            ar = [(mono, c) for mono, c in t[1] if len(mono) == 1 and mono[0][1] == 1 and mono[0][0][0] == "app" and mono[0][0][1] == "arange"
+                  and len(mono[0][0][2]) == 2 and c == 1]
+            if len(ar) == 1:
+                rest = ("poly", tuple(x for x in t[1] if x is not ar[0]))
+                from ..terms import to_poly
+                rest_t = T_sub(t, ar[0][0][0][0])
+                if not any(x[0] == "app" and x[1] == "arange" for x in subterms(rest_t)) and rest_t[0] != "lam":
+                    a_, b_ = ar[0][0][0][0][2]
+                    return ("app", "arange", (T_add(a_, rest_t), T_add(b_, rest_t)))
+        if t[0] == "app" and t[1] == "slice" and len(t[2]) == 4 and t[2][2] == NONE and t[2][3] == NONE:
+            base, k = t[2][0], t[2][1]
+            if base[0] == "app" and base[1].endswith(".pmf") and base[2] and base[2][0][0] == "app" and base[2][0][1] == "arange":
+                ra = base[2][0][2]
+                a_, b_ = (ZERO, ra[0]) if len(ra) == 1 else (ra[0], ra[1])
+                return ("app", base[1], (("app", "arange", (T_add(a_, k), b_)),) + tuple(base[2][1:]))
+        return t
+
     ok_pu, why_pu = False, "substitution table is not built by the documented double loop"
     if pu is not None and pu[0] == "fold" and pu[2] == T_add(Mb, ONE) and pu[3] == zeros_t and pu[4][0] == "fold":
         y, cur_y, inner = pu[1], pu[5], pu[4]
@@ -233,12 +259,12 @@ def _hendrix(ctx, col):
         want_body = ("scatter", cur_u, ("tuple", (T_add(u, ONE), y)), pu_entry(T_add(u, ONE), y))
         cnt_ok = inner[2] == T_sub(T_sub(MD, y), ONE)
         # the same table written as one loop over u = 0 .. max_demand - y - 1 (no separate u = 0 statement)
-        merged = inner[3] == cur_y and inner[2] == T_sub(MD, y) and inner[4] == ("scatter", cur_u, ("tuple", (u, y)), pu_entry(u, y))
+        merged = inner[3] == cur_y and inner[2] == T_sub(MD, y) and _canon_pmf(inner[4]) == _canon_pmf(("scatter", cur_u, ("tuple", (u, y)), pu_entry(u, y)))
         if merged:
             ok_pu, why_pu = True, "pu[u, y] = sum_(x >= u, x + y < max_demand) Poisson(x + y; mean_b) * Binomial(u; x, substitution_probability) for every u >= 0 and y (single loop)"
-        elif inner[3] != want_init:
+        elif _canon_pmf(inner[3]) != _canon_pmf(want_init):
             why_pu = f"pu[0, y] is {brief(inner[3][3] if inner[3][0] == 'scatter' else inner[3], 260)}; documented: sum_x Poisson(x + y; mean_b) * Binomial(0; x, substitution_probability)"
-        elif inner[4] != want_body:
+        elif _canon_pmf(inner[4]) != _canon_pmf(want_body):
             why_pu = f"pu[u, y] is {brief(inner[4][3] if inner[4][0] == 'scatter' else inner[4], 260)}; documented: sum_(x>=u) Poisson(x + y; mean_b) * Binomial(u; x, substitution_probability)"
         elif not cnt_ok:
             why_pu = f"u ranges over {show_norm(inner[2])} values, documented 1 .. max_demand - y - 1"
